@@ -42,6 +42,10 @@ pub fn cores() -> Vec<(&'static str, Exp)> {
         ("b iff c", Exp::Iff(b().to_box(), c().to_box())),
         ("x+(b and c)", bin(BinOp::Add, x(), Exp::And(vec![b(), c()]))),
         ("abs{x}-(b or c)", bin(BinOp::Sub, Exp::Abs(x().to_box()), Exp::Or(vec![b(), c()]))),
+        // constant-only blocks whose value has the "other" sign (folds that start from 0 get these wrong)
+        ("max{-2,-1}", Exp::Max(vec![num(-2.0), num(-1.0)])),
+        ("x+min{3,2}", bin(BinOp::Add, x(), Exp::Min(vec![num(3.0), num(2.0)]))),
+        ("abs{-2}-x", bin(BinOp::Sub, Exp::Abs(num(-2.0).to_box()), x())),
     ]
 }
 
@@ -508,7 +512,7 @@ pub fn run(mut run: Run) -> ! {
     run.case_timeout_s = 60.0;
     let quick = run.quick();
     let depth = if quick { 1 } else { 2 };
-    run.rule = format!("Model values built through the public constructors (usage marks as the transformer sets them): family A = 26 cores (abs/min/max nests, logic values in arithmetic, dominated and equal operands) x every chain of <= {depth} contexts from 12 (positive/negative scale, negation, subtraction on either side, division by +-2, abs, min, max, minus x) x 3 relations x 5 constants x both sides x 8 declaration forms (declared, row-derived, scaled-row-derived, unbounded, half-bounded, integer); family B = every logic tree with <= {} operator nodes over b,c,d,0,1 (incl. n-ary and empty and/or) x bare assertion and 30 comparison forms; family C = 12 bound feeders x 15 consumers; each compiled model is decided exactly: all assignments of the discrete variables x every cell (breakpoints, midpoints, beyond-ends) of the region partition of the continuous one; distinct = model text; non-trivial = compiled with at least one auxiliary or changed row count", if quick { 1 } else { 2 });
+    run.rule = format!("Model values built through the public constructors (usage marks as the transformer sets them): family A = {} cores (abs/min/max nests, logic values in arithmetic, dominated and equal operands) x every chain of <= {depth} contexts from 12 (positive/negative scale, negation, subtraction on either side, division by +-2, abs, min, max, minus x) x 3 relations x 5 constants x both sides x 8 declaration forms (declared, row-derived, scaled-row-derived, unbounded, half-bounded, integer); family B = every logic tree with <= {} operator nodes over b,c,d,0,1 (incl. n-ary and empty and/or) x bare assertion and 30 comparison forms; family C = 12 bound feeders x 15 consumers; each compiled model is decided exactly: all assignments of the discrete variables x every cell (breakpoints, midpoints, beyond-ends) of the region partition of the continuous one; distinct = model text; non-trivial = compiled with at least one auxiliary or changed row count", cores().len(), if quick { 1 } else { 2 });
     run.assume("exact source semantics (refsem) and exact projection of the linear model: integer auxiliaries enumerated, continuous auxiliaries by exact LP; the projection's interval endpoints are added to the test points, so S = L is decided on the whole real line of one continuous variable; extra continuous variables are checked on a 9-point rational grid (slice mode)");
     run.assume("models in which the continuous variable occurs under a logic operator, or whose source is undefined at a test point, are skipped and counted");
     let sa = family_a_size(depth, quick);
